@@ -486,7 +486,7 @@ def c03(run, selftest=True):
 
 @plan("C08")
 def c08(run, selftest=True):
-    return recv_plan(run, selftest, ["element"], {"value", "leaves", "fwd", "panic"}, "C08 attribute selection / merging / forwarding",
+    return recv_plan(run, selftest, ["element"], {"value", "leaves", "fwd", "panic", "merge"}, "C08 attribute selection / merging / forwarding",
                      trace_events=150 if run.tier == "quick" else 4000)
 
 
